@@ -267,6 +267,20 @@ def run(ctx):
                  and (ja2 & gb.backward_locals([c.args[2]['p'][0]], limit=2000))]
         ctx.ob('GET-EXIT', 'get:cache-through-gated-store', bool(cache), gb.where(), 'a found value is cached through DhtCoreEngine::store (size-gated): %s' % bool(cache))
 
+        # the queue of a lookup / get is seeded from the node's own answer (find_closest_nodes_local): a known peer withheld from
+        # that answer is never queried, so the C02 rules about which entries the local answer may leave out are evaluated here too
+        from props import c02 as C02
+        import runner as _runner
+        sub = _runner.Ctx('C02', prog, ctx.tier, ctx.progs)
+        try:
+            C02.run(sub)
+            for o in sub.obls:
+                if o.key.startswith('local-answer:skip-reason') or o.key == 'local-answer:skip-reasons-closed':
+                    ctx.ob('LOCAL-ANSWER', o.key, o.ok, o.where, o.detail, entry=o.entry)
+        except Exception as e:  # pragma: no cover - fail closed
+            ctx.ob('LOCAL-ANSWER', 'local-answer:rules-ran', False, '-', 'the local-answer rules could not be evaluated: %s' % e)
+        ctx.floor('LOCAL-ANSWER', 1)
+
 
 def _request_sites(prog, b):
     """blocks of `b` where requests are constructed: closures reaching send_dht_request"""
